@@ -395,7 +395,7 @@ class Ctx:
         # also accept a tail call `return callee(...)` (the callee's Result is returned as is)
         def _unwrapped(x):
             # `callee(..).map_err(f)` returned as is carries callee's refusals
-            while isinstance(x, tuple) and x[0] == "call" and str(x[1]).split("::")[-1] in ("map_err",) and x[2] and not callee(x):
+            while isinstance(x, tuple) and x[0] == "call" and str(x[1]).split("::")[-1] in ("map_err", "map", "and_then") and x[2] and not callee(x):
                 x = x[2][0]
             return x
         for rd in g.retdefs:
